@@ -35,8 +35,9 @@ Definition r_char : N := 114.
 Definition filter_infix (off : Z) (flt : infix_filter) (infix : bytes) : bool :=
   match flt with
   | IFTs f => match parse_ts_local f infix with Some _ => true | None => false end
-  | IFNum => match infix with
-             | a :: b :: _ :: _ => (a =? r_char) && is_digit b
+  | IFNum => (* 'r' and the number (one or more ASCII digits), nothing else *)
+             match infix with
+             | a :: d :: ds => (a =? r_char) && forallb is_digit (d :: ds)
              | _ => false end
   | IFEq s => beq infix s
   | IFNone => false
@@ -44,9 +45,11 @@ Definition filter_infix (off : Z) (flt : infix_filter) (infix : bytes) : bool :=
 
 Definition gz_sfx : bytes := [103; 122].                              (* "gz" *)
 
-(* the sort key of read_dir_related_files: the name without ".gz", suffix and restart counter, then the restart
-   counter - numerically, a name without counter first -, then the name itself *)
+(* the sort key of read_dir_related_files: the name without ".gz", suffix, restart counter and the number of a number
+   infix "_r<digits>" (cut behind the LAST "_r"; or, in a name without any "_r", behind a leading "r"); then that number and the restart counter - both numerically, a name
+   without number / without counter first -, then the name itself *)
 Definition restart_tag : bytes := [46; 114; 101; 115; 116; 97; 114; 116; 45].   (* ".restart-" *)
+Definition number_tag : bytes := [95; 114].                                      (* "_r" *)
 (* str::rsplit_once: the last occurrence of the pattern *)
 Fixpoint find_last_sub (pat s : bytes) : option nat :=
   match s with
@@ -57,19 +60,36 @@ Fixpoint find_last_sub (pat s : bytes) : option nat :=
                end
   end.
 Fixpoint drop_zeros (s : bytes) : bytes := match s with 48 :: r => drop_zeros r | _ => s end.
-Definition sort_key (sfx : option bytes) (n : bytes) : bytes * option (nat * bytes) :=
+Definition sort_key (sfx : option bytes) (n : bytes) : bytes * option (nat * bytes) * option (nat * bytes) :=
   let s1 := match strip_suffix (dot :: gz_sfx) n with Some s => s | None => n end in
   let stem := match sfx with
               | Some x => match strip_suffix (dot :: x) s1 with Some s => s | None => s1 end
               | None => s1
               end in
-  match find_last_sub restart_tag stem with
-  | Some ix => let digits := skipn (ix + 9) stem in
-               if negb (beq digits []) && forallb is_digit digits
-               then let d := drop_zeros digits in (firstn ix stem, Some (length d, d))
-               else (stem, None)
-  | None => (stem, None)
+  let '(main, restart) :=
+    match find_last_sub restart_tag stem with
+    | Some ix => let digits := skipn (ix + 9) stem in
+                 if negb (beq digits []) && forallb is_digit digits
+                 then let d := drop_zeros digits in (firstn ix stem, Some (length d, d))
+                 else (stem, None)
+    | None => (stem, None)
+    end in
+  (* the number of a number infix can outgrow its five digits
+     (without basename and discriminant the name starts with the infix) *)
+  let split := match find_last_sub number_tag main with
+               | Some ix => Some (firstn ix main ++ number_tag, skipn (ix + 2) main)
+               | None => match strip_prefix [r_char] main with
+                         | Some digits => Some ([r_char], digits)
+                         | None => None
+                         end
+               end in
+  match split with
+  | Some (head, digits) => if negb (beq digits []) && forallb is_digit digits
+                           then let d := drop_zeros digits in (head, Some (length d, d), restart)
+                           else (main, None, restart)
+  | None => (main, None, restart)
   end.
+(* Option<(usize, String)>: None < Some, the pairs (length, digits) lexicographically *)
 Definition rkey_le (a b : option (nat * bytes)) : bool :=
   match a, b with
   | None, _ => true
@@ -82,10 +102,13 @@ Definition rkey_eq (a b : option (nat * bytes)) : bool :=
   | Some (la, da), Some (lb, db) => Nat.eqb la lb && beq da db
   | _, _ => false
   end.
+(* the tuples (main part, number key, restart key, name) lexicographically *)
 Definition key_le (sfx : option bytes) (x y : bytes) : bool :=
-  let '(mx, rx) := sort_key sfx x in
-  let '(my, ry) := sort_key sfx y in
-  if beq mx my then (if rkey_eq rx ry then lex_le x y else rkey_le rx ry) else lex_le mx my.
+  let '(mx, nx, rx) := sort_key sfx x in
+  let '(my, ny, ry) := sort_key sfx y in
+  if beq mx my then
+    (if rkey_eq nx ny then (if rkey_eq rx ry then lex_le x y else rkey_le rx ry) else rkey_le nx ny)
+  else lex_le mx my.
 Fixpoint insert_by (le : bytes -> bytes -> bool) (x : bytes) (l : list bytes) : list bytes :=
   match l with
   | [] => [x]
